@@ -65,10 +65,20 @@ func tryReplay(e *engine, o *oblig, prop string) replayResult {
 		return replayResult{}
 	}
 	replayMu.Lock()
-	defer replayMu.Unlock()
 	if r, ok := replayCache[h.file]; ok {
+		replayMu.Unlock()
 		return r
 	}
+	replayMu.Unlock()
+	r := runHarness(e, h)
+	replayMu.Lock()
+	replayCache[h.file] = r
+	replayMu.Unlock()
+	return r
+}
+
+func runHarness(e *engine, h *harness) replayResult {
+	src := filepath.Join("/verif/replay", h.file)
 	dir, _ := os.MkdirTemp("", "kvc-replay")
 	defer os.RemoveAll(dir)
 	target := filepath.Join(e.repo, h.pkg, "zz_replay_verif_test.go")
@@ -96,6 +106,5 @@ func tryReplay(e *engine, o *oblig, prop string) replayResult {
 	if err != nil && strings.Contains(string(out), "--- FAIL") {
 		r.found = true
 	}
-	replayCache[h.file] = r
 	return r
 }
